@@ -546,12 +546,16 @@ impl<S: BitmapSlice + Send + Sync> FileSystem for PassthroughFs<S> {
     }
 
     fn forget(&self, _ctx: &Context, inode: Inode, count: u64) {
+        #[cfg(fuse_backend_rs_verif)]
+        verif::yield_point("forget:before-write-lock");
         let mut inodes = self.inode_map.get_map_mut();
 
         self.forget_one(&mut inodes, inode, count)
     }
 
     fn batch_forget(&self, _ctx: &Context, requests: Vec<(Inode, u64)>) {
+        #[cfg(fuse_backend_rs_verif)]
+        verif::yield_point("forget:before-write-lock");
         let mut inodes = self.inode_map.get_map_mut();
 
         for (inode, count) in requests {
